@@ -10,9 +10,9 @@ echo "== tests with the change"; cargo test --workspace --no-fail-fast --offline
 if [ -f demo.sh ]; then
   echo "== demo WITH change"; (bash demo.sh > /tmp/demo_with.log 2>&1; echo "exit=$?"; tail -3 /tmp/demo_with.log)
   git diff -- src > /tmp/seed_patch.diff
-  git stash -q -- src
+  git apply -R /tmp/seed_patch.diff
   echo "== demo WITHOUT change"; (bash demo.sh > /tmp/demo_without.log 2>&1; echo "exit=$?"; tail -3 /tmp/demo_without.log)
-  git stash pop -q
+  git apply /tmp/seed_patch.diff
 fi
 cd /repo || exit 2
 if ! git apply --check "$WT/patch.diff" 2>/dev/null; then (cd "$WT"; git diff -- src > /tmp/seed_patch.diff); P=/tmp/seed_patch.diff; else P="$WT/patch.diff"; fi
